@@ -129,6 +129,16 @@ Theorem C16_spec_valid_fuel_independent : forall fs root n,
 Proof. exact spec_valid_fuel_independent. Qed.
 Print Assumptions C16_spec_valid_fuel_independent.
 
+(** The ORDER in which an accepted hierarchy's cases are processed is the declarative one: what
+    [spec_processed] (Spec/C16.v) computes from the file system alone — per suite file, first what its
+    sub-suites process (in the order the suites section lists them, glob matches sorted by path), then
+    its own cases in the order the cases section lists them.  The property half of [check_c16] compares
+    the real program's processed cases with [spec_processed], independently of the reader model. *)
+Theorem C16_processing_order_is_declarative : forall fs root h,
+  read_root fs root = inr h -> spec_processed (S (length fs)) fs root = Some (processed h).
+Proof. exact processing_order_is_declarative. Qed.
+Print Assumptions C16_processing_order_is_declarative.
+
 (** "The check predicate holds on the model" (built by a separate pass; proofs in Proofs/PredOnModelC16.v): the boolean
     predicate the check evaluates on OBSERVED behaviour is true of the model's own output for all inputs, and
     correspondence on an input implies the property on that input. *)
